@@ -416,7 +416,9 @@ type memStream struct {
 	compact   int64
 	delivered int
 	ended     bool // range-stream shape: the terminator (header revision -1) has arrived, nothing more will come
-	stream    bool // range-stream shape (negative start revision): the events are the kvs of a streamed range
+	// canceled responses seen on this stream (one watch per stream in this suite), and responses naming the watch after the first
+	nCanceled, afterCancel int
+	stream                 bool // range-stream shape (negative start revision): the events are the kvs of a streamed range
 }
 
 func (m *memStream) Send(r *etcdserverpb.WatchResponse) error {
@@ -430,6 +432,13 @@ func (m *memStream) Send(r *etcdserverpb.WatchResponse) error {
 	}
 	m.mu.Lock()
 	m.out = append(m.out, r2)
+	// C20/C16: a watch is cancelled with exactly ONE canceled response, and nothing names the watch afterwards
+	if m.nCanceled > 0 && (len(r2.Events) > 0 || r2.Canceled) {
+		m.afterCancel++
+	}
+	if r2.Canceled {
+		m.nCanceled++
+	}
 	m.mu.Unlock()
 	return nil
 }
@@ -633,6 +642,17 @@ func (s *etcdSuite) do(t []string) string {
 		return s.doWatch(pos, opts)
 	case "wevents":
 		return s.doWevents(pos[1], opts)
+	case "wcanceled":
+		// wcanceled <name>: how many canceled responses the watch got, and how many responses followed the first one
+		m := s.ws[pos[1]]
+		if m == nil {
+			return "wcanceled " + pos[1] + " nowatch"
+		}
+		time.Sleep(150 * time.Millisecond) // a second answer, if the handler sends one, comes from another goroutine
+		m.mu.Lock()
+		defer m.mu.Unlock()
+		n := m.nCanceled
+		return fmt.Sprintf("wcanceled %s n=%d extra=%d", pos[1], n, m.afterCancel)
 	case "wcancel":
 		if m := s.ws[pos[1]]; m != nil {
 			m.in <- &etcdserverpb.WatchRequest{RequestUnion: &etcdserverpb.WatchRequest_CancelRequest{CancelRequest: &etcdserverpb.WatchCancelRequest{WatchId: m.watchID}}}
